@@ -38,7 +38,20 @@ pub struct Batch {
 /// Run one case of a scenario (sets the per-case transport style first).
 pub fn run_case(run: fn(&Case, bool) -> RunOut, case: &Case, trace: bool) -> RunOut {
     crate::sim::READER_STYLE.with(|s| s.set(case.reader_style));
-    run(case, trace)
+    // a panic that escapes the scenario's own guarded library calls (a constructor, accessor or
+    // Debug impl of the library panicking on a value) is a violation, not a dead worker
+    match crate::fe::guarded(|| run(case, trace)) {
+        Ok(o) => o,
+        Err(m) => {
+            let mut o = RunOut::default();
+            o.evals = 1;
+            o.violate(
+                format!("{}:panic-outside-library-call", case.property),
+                format!("the library panicked outside a decoder/encoder call while the harness built or inspected a value (constructor, accessor, Debug): {m}"),
+            );
+            o
+        }
+    }
 }
 
 pub fn gen_case(s: &Scenario, master: u64, tier: Tier, idx: u64) -> (u64, Case) {
@@ -107,18 +120,7 @@ pub fn run_batch(
                     let end = if budget.is_none() { (b + BLOCK).min(runs) } else { b + BLOCK };
                     for idx in b..end {
                         let (seed, case) = gen_case(s, master, tier, idx);
-                        let mut out: RunOut = match crate::fe::guarded(|| run_case(s.run, &case, false)) {
-                            Ok(o) => o,
-                            Err(m) => {
-                                let mut o = RunOut::default();
-                                o.evals = 1;
-                                o.violate(
-                                    format!("{}:panic-outside-library-call", s.property),
-                                    format!("a value returned by the library made the harness panic while inspecting it (e.g. Debug/accessor on a packet that breaks its invariants): {m}"),
-                                );
-                                o
-                            }
-                        };
+                        let mut out: RunOut = run_case(s.run, &case, false);
                         // fold the verdict into the hash: evaluations, violations, probes
                         out.mix(&out.evals.to_le_bytes());
                         let sigs: Vec<String> = out.violations.iter().map(|v| v.signature.clone()).collect();
